@@ -20,6 +20,7 @@ def main (args : List String) : IO UInt32 := do
   | ["edges"] => SalsaVerif.Drive.Edges.main; return 0
   | ["cycle"] => SalsaVerif.Drive.Cycle.main; return 0
   | ["cyclerev"] => SalsaVerif.Drive.CycleRev.main; return 0
+  | ["cyclerev-cert"] => SalsaVerif.Drive.CycleRev.main true; return 0
   | ["dg"] => SalsaVerif.Drive.SyncDG.main; return 0
   | ["lru"] => SalsaVerif.Drive.Lru.main; return 0
   | ["rq"] => SalsaVerif.Drive.Intern.mainRq; return 0
